@@ -32,6 +32,22 @@ import PyYetiVerif.Generated.PadeTables
 -/
 open PyYetiVerif PyYetiVerif.ExpSeries
 
+/-- driver-side sensitivity of the two power-series loops: the model's loop with the term size perturbed by
+`noise·max(|X|^k/k!)` (what floating-point products of cancelling entries can differ by).  `fixedE`: `_geti2`
+(`abs(E).max()` of the given `E`); `none`: `expmint_pow` (running sum). -/
+def loopNoise (X : QMat) (tol : Rat) (maxloops : Nat) (fixedE : Option Rat) (noise : Rat) : Nat :=
+  let Xa : QMat := ⟨X.num.absM, X.den⟩
+  let rec go (fuel j : Nat) (E term aterm : QMat) : Nat :=
+    match fuel with
+    | 0 => j
+    | f + 1 =>
+      let emax := match fixedE with | some e => e | none => E.maxAbs
+      if term.maxAbs + noise * aterm.maxAbs > tol * emax ∧ j < maxloops then
+        let c : Rat := 1 / ((j + 1 : Nat) : Rat)
+        go f (j + 1) (E.addInto term) ((term.mul X).smul c) ((aterm.mul Xa).smul c)
+      else j
+  go maxloops 1 (QMat.ident X.rows) X Xa
+
 def parseRat (s : String) : Option Rat :=
   match s.splitOn "/" with
   | [a] => a.toInt?.map fun n => (n : Rat)
@@ -308,7 +324,10 @@ def answer (line : String) : Option String := do
       let one (f : Rat) : String :=
         let acc := allclose (f * Generated.PadeTables.geti2_allclose_rtol) (f * Generated.PadeTables.geti2_allclose_atol) it i1
         let j := if pade ≤ 9 ∨ (luOK = 1 ∧ acc) then 0
-                 else seriesLoops X emax (f * Generated.PadeTables.geti2_series_tol) Generated.PadeTables.geti2_series_maxloops
+                 else if f = 1 then
+                   seriesLoops X emax Generated.PadeTables.geti2_series_tol Generated.PadeTables.geti2_series_maxloops
+                 else loopNoise X (f * Generated.PadeTables.geti2_series_tol) Generated.PadeTables.geti2_series_maxloops
+                        (some emax) ((1 - f) / 1000)
         match geti2Branch pade (luOK = 1) acc j Generated.PadeTables.geti2_series_maxloops with
         | .pade m => s!"pade{m}"
         | .direct => "direct"
@@ -321,7 +340,9 @@ def answer (line : String) : Option String := do
       let xs ← parseRats rest
       let (X, _) ← takeMat n n xs
       let del : Rat := 1 / 10 ^ 9
-      let f (g : Rat) := powLoops X (g * Generated.PadeTables.pow_tol) Generated.PadeTables.pow_maxloops
+      let f (g : Rat) :=
+        if g = 1 then powLoops X Generated.PadeTables.pow_tol Generated.PadeTables.pow_maxloops
+        else loopNoise X (g * Generated.PadeTables.pow_tol) Generated.PadeTables.pow_maxloops none ((1 - g) / 1000)
       pure s!"{f (1 - del)} {f 1} {f (1 + del)}"
   | ["route", x] =>
       let x ← parseRat x
